@@ -20,7 +20,9 @@ def pick_scheme(rng):
                     "Blakepadding", "MDpadding", "SHApadding", "pkcs7", "bitpadding"])
     if s in ("MDpadding", "SHApadding"):
         w = rng.choice([32, 32, 64])
-        Bb = rng.choice([512, 1024, 512, 1024, 256, 128] if w == 32 else [1024, 1024, 512, 256])
+        # any multiple of 8 that holds the length field and the marker bit, not only powers of two
+        Bb = rng.choice([512, 1024, 512, 1024, 256, 128, 192, 320, 384, 640, 768, 96, 72 + 8 * rng.randrange(0, 100)] if w == 32
+                        else [1024, 1024, 512, 256, 192, 384, 640, 768, 896, 136 + 8 * rng.randrange(0, 100)])
         return s, {"B": Bb, "w": w}, {"kind": "pad", "scheme": s, "l": Bb, "w": w}
     if s == "Blakepadding":
         h = rng.choice([224, 256, 384, 512])
